@@ -23,7 +23,7 @@ def run(chk):
         dt.replay(chk, res.cases, "C02", cli_sample=200 if quick else 1500)
         res.cases = None
     for sparse in ("FALSE", "TRUE"):
-        cfgs = rc.set_consts("MC_C01sim", GenLen=10 if quick else 14, GenSparse=sparse, MaxBlocks=1 if quick else 2)
+        cfgs = rc.set_consts("MC_C01sim", GenLen=10 if quick else 14, GenSparse=sparse, MaxBlocks=1)   # (two blocks: GenPlace has too many successors for -simulate)
         rs = vlib.run_tlc("MC_C01", cfg_text=cfgs, timeout=3000, simulate=40 if quick else 600, depth=90, seed=(chk.seed + 1) % 100000,
                           workers=4, heap="8g")
         if not rs.ok:
